@@ -95,6 +95,9 @@ def runOp (op : String) : P String := do
   | "inew" =>
     let t ← P.itier (α := α)
     pure (Out.exc Out.itier t.new)
+  | "inewe" =>   -- `tier.new(entries=[], minTimestamp=lo, maxTimestamp=hi)`
+    let t ← P.itier (α := α); let lo ← P.opt P.time; let hi ← P.opt P.time
+    pure (Out.exc Out.itier (t.new (es := some []) (lo := lo) (hi := hi)))
   | "pnew" =>
     let t ← P.ptier (α := α)
     pure (Out.exc Out.ptier t.new)
